@@ -6,6 +6,10 @@ from wrapbase import seq_eq
 ALPHA = [' ', 'a', '-', '­', '\t', ' ', '​', '⁠', '你', '\U0001f602', '\n', '\r', '́', ')', '\x1b[m',
          '\x1b]8;;\x1b\\']
 
+# characters whose UTF-8 encoding shares bytes with characters the code treats specially (last byte 0xAD like the
+# soft hyphen C2 AD, last byte 0xA0 like NBSP, ...): byte-vs-char slips
+COLLIDE = ['\u4e2d', '\u00ed', '\U0001f62d', '\u6587', '\u0b6d']
+
 
 def words_neutral(vec, base):
     out = []
@@ -29,6 +33,7 @@ class C11(Harness):
             out.append({'feat': feat, 'sep': 'A', 'gen': 'symall', 'n': 3 if q else 4})
         out.append({'feat': 'full', 'sep': 'U', 'gen': 'alpha', 'alphabet': ALPHA[:8] + ALPHA[14:15], 'n': 3 if q else 4})
         out.append({'feat': 'full', 'sep': 'U', 'gen': 'alpha', 'alphabet': ALPHA[:3] + ALPHA[8:], 'n': 3 if q else 4})
+        out.append({'feat': 'full', 'sep': 'U', 'gen': 'alpha', 'alphabet': [' ', 'a', '-', '­'] + COLLIDE, 'n': 3 if q else 4})
         if not q:
             out.append({'feat': 'full', 'sep': 'U', 'gen': 'alpha', 'alphabet': [' ', 'a', '-', '­', '你', '\x1b[m'], 'n': 6})
             out.append({'feat': 'full', 'sep': 'U', 'gen': 'alpha', 'alphabet': ALPHA, 'n': 4})
